@@ -188,7 +188,9 @@ impl Report {
         });
         let edir = vd.join("evidence");
         let _ = std::fs::create_dir_all(&edir);
-        let ep = edir.join(format!("{}.json", self.prop));
+        // VERIF_EVIDENCE_NAME lets a secondary run (e.g. the debug-assertions build of C09) write next to the main file
+        let ename = std::env::var("VERIF_EVIDENCE_NAME").unwrap_or_else(|_| self.prop.clone());
+        let ep = edir.join(format!("{}.json", ename));
         let tmp = edir.join(format!(".{}.json.tmp", self.prop));
         if std::fs::write(&tmp, serde_json::to_string_pretty(&ev).unwrap()).and_then(|_| std::fs::rename(&tmp, &ep)).is_err() {
             eprintln!("MACHINERY: cannot write evidence file {:?}", ep);
